@@ -116,7 +116,12 @@ func (c rendererContext) Get(name string) any {
 
 func (c rendererContext) ExpandTagArg() (string, error) {
 	args := c.TagArgs()
-	if strings.Contains(args, "{{") {
+	// the opening delimiter of an object: the configured one, or the default
+	objectLeft := "{{"
+	if d := c.ctx.config.Delims; len(d) > 0 && d[0] != "" {
+		objectLeft = d[0]
+	}
+	if strings.Contains(args, objectLeft) {
 		root, err := c.ctx.config.Compile(args, c.node.SourceLoc)
 		if err != nil {
 			return "", err
